@@ -77,6 +77,20 @@ def gen_flushes():
     return cases
 
 
+def gen_long_runs():
+    """long unbroken runs of one kind of failure (17, 20, 33, 70 panics or errors in a row, nothing delivered in
+    between), then ordinary traffic: the sink must go on exactly as before however many failures preceded"""
+    cases = []
+    for n in (17, 20, 33, 70):
+        for r in ("Rp", "Re8"):
+            for cap in ("u", str(n + 2)):
+                for handler in ("0", "1"):
+                    cases.append("Q %s %s %s" % (cap, handler, ",".join(["E0"] * n + [r] * n + ["S", "E0", "E0", "Rk", "Rk", "S", "D0"])))
+            # one at a time: emit, fail, emit, fail ...
+            cases.append("Q 1 1 %s" % ",".join(["E0", r] * n + ["S", "E0", "Rk", "S", "C0", "D0", "E1", "Rk", "D1"]))
+    return cases
+
+
 def gen_payloads():
     """every payload shape (empty string, 100 kB, non-ASCII with newlines, bare number) through every capacity, on the
     original handle and on a clone, sampled before and after delivery"""
@@ -404,6 +418,7 @@ def run_queue_check(prop, tier, seed):
     cases += gen_patterns(rng)
     cases += gen_payloads()
     cases += gen_flushes()
+    cases += gen_long_runs()
     cases += gen_random(rng, 60000 if thorough else 400, 40)
     soak = gen_soak(rng, 300 if thorough else 12, thorough)
     sched = gen_schedules(8 if thorough else 6, [1, 2, None], rng, 30000 if thorough else 300, 30)
